@@ -14,17 +14,16 @@ import (
 // images become the branch undo log the way FlushUndoLog pairs them, and the
 // real rollback must take the table back to what it was.
 func VerifC01Recorded() {
-	names := []string{"upsert-mixed-two-rows", "upsert-existing-row", "upsert-new-row", "insert-reordered-two-rows", "multi-update-same-row", "multi-delete"}
-	name := names[vrt.Choice("statement", len(names))]
-	var st c18Stmt
-	for _, x := range c18Stmts {
-		if x.name == name {
-			st = x
-		}
+	st := c18Stmts[vrt.Choice("statement", len(c18Stmts))]
+	name := st.name
+	if !st.valid {
+		return
 	}
 	w := c18Setup(st.composite, c18AutoKey(st.name))
-	undo.UndoConfig.OnlyCareUpdateColumns = false
 	s := uSchemas[0]
+	if st.composite {
+		s = uSchemas[1]
+	}
 	var initial []uRow
 	for _, r := range w.d.rows {
 		if r.present {
